@@ -308,6 +308,41 @@ Definition connect (cfg : config) (dial_ok tls_ok : bool) (p0 : persist) (s : li
       end
   end.
 
+(* ---- the same over the WebSocket transport (websocket_transport.go) ----
+   The transport is secure or not FROM THE START (wss:// or ws://: IsSecure() reports whether
+   the opening handshake ended on a TLS connection); it never does STARTTLS (DoesStartTLS is
+   false), so NewSession asks for none and - TlsEnabled staying false - restarts no stream
+   before authentication: after the stream open and the features comes <auth/> at once.
+   On ws:// the TLS gate decides: without Insecure the negotiation ends there (a matter of
+   policy: permanent), with Insecure it goes on in clear.  [secure]: the connection runs over
+   TLS (ghost [o_tls] of every request). *)
+Inductive transport := TTcp | TWs (secure : bool).
+
+Definition connect_ws (cfg : config) (dial_ok secure : bool) (p0 : persist) (s : list sitem)
+  : list out * result * persist :=
+  if negb dial_ok then ([], Err true false, p0) else
+  let w0 := [o secure ROpen []] in
+  match read_header s with
+  | None => (w0, Err true false, p0)
+  | Some (id0, s1) =>
+      let p := set_flags p0 (p_code_secure p0) false in
+      match read_features s1 with
+      | None => (w0, Err true (negb (is_cut s1)), drop_session p)
+      | Some (f, s2) =>
+          if secure || c_insecure cfg then
+            let '(w, r, p') := step_auth cfg secure (with_session p) f s2 [SHeader id0; SFeatures f] in
+            (w0 ++ w, r, p')
+          else (w0, Err true true, drop_session p)
+      end
+  end.
+
+Definition connect_on (t : transport) (cfg : config) (dial_ok tls_ok : bool) (p0 : persist) (s : list sitem)
+  : list out * result * persist :=
+  match t with
+  | TTcp => connect cfg dial_ok tls_ok p0 s
+  | TWs secure => connect_ws cfg dial_ok secure p0 s
+  end.
+
 (* ---- what the application is told (events delivered to the EventHandler) ----
    Client.connect (client.go) = transport.Connect + NewSession (the function [connect]
    above) followed, on the success path only, by updateState(StateSessionEstablished).
@@ -336,6 +371,17 @@ Fixpoint run_conns (cfg : config) (p : persist) (cs : list conn)
       let '(w, r, p1) := connect cfg (k_dial c) (k_tls c) p (k_script c) in
       let p2 := match r with Ok => add_inbound p1 (k_traffic c) | _ => p1 end in
       (w, r, p2) :: run_conns cfg p2 cs'
+  end.
+
+(* a history of connections of a Client on a given transport *)
+Fixpoint run_conns_on (t : transport) (cfg : config) (p : persist) (cs : list conn)
+  : list (list out * result * persist) :=
+  match cs with
+  | [] => []
+  | c :: cs' =>
+      let '(w, r, p1) := connect_on t cfg (k_dial c) (k_tls c) p (k_script c) in
+      let p2 := match r with Ok => add_inbound p1 (k_traffic c) | _ => p1 end in
+      (w, r, p2) :: run_conns_on t cfg p2 cs'
   end.
 
 (* the same history as the application sees it: every connection with what was announced
